@@ -202,9 +202,11 @@ def worker_main(tier, seed, pl, cache, extra_docs):
         agg = {'runs': 0, 'obs': 0, 'compared': 0, 'faults': {}, 'natural_exc': 0, 'fps': set(), 'pairs': set(),
                'digests': set(), 'nontrivial': 0, 'by_batch': {}, 'violations': 0, 'samples': {}, 'sites': set(),
                'sites_fired': set(), 'max_blocks': 0}
-        chunk = len(G.MODES) * len(pl['rots'])   # all histories of one fault variant go to one worker (shared oracle keys)
-        for g in (x for c in range(widx, (pl['total'] + chunk - 1) // chunk, nw)
-                  for x in range(c * chunk, min((c + 1) * chunk, pl['total']))):
+        chunk = len(G.MODES) * len(pl['rots'])   # all histories of one fault variant go to one worker (shared oracle keys);
+        n_sys_chunks = (pl['n_sys'] + chunk - 1) // chunk     # everything after the systematic batch is dealt out one by one
+        mine = [x for c in range(widx, n_sys_chunks, nw) for x in range(c * chunk, min((c + 1) * chunk, pl['n_sys']))]
+        mine += list(range(pl['n_sys'] + widx, pl['total'], nw))     # (long histories must not queue up behind one worker)
+        for g in mine:
             batch, idx, history, v = job(pl, tier, seed, g, extra_docs)
             res = judge.run(history)
             agg['runs'] += 1
